@@ -19,7 +19,7 @@ def worker(inst):
     return out
 
 
-CORE_TAGS = {"leaf", "num", "unary", "binary", "reduce", "subs", "getitem", "stack", "cat", "lambda", "einsum",
+CORE_TAGS = {"leaf", "num", "unary", "binary", "reduce", "subs", "getitem", "getitem_at", "stack", "cat", "lambda", "einsum",
              "outreduce", "reshape", "getslice", "slice"}
 CORE_REDUCE = {"add", "mul", "max", "min", "logaddexp", "and_", "or_"}
 
